@@ -80,6 +80,7 @@ def renderOut : Out → String
   | .leafStop i => s!"lp{i}"
   | .localsDead f => s!"ld{f}"
   | .cleanup f a => s!"cl{f}:{a}"
+  | .cleanupSched k => s!"cq{k}"
   | .frameDead f => s!"fd{f}"
   | .sched k => s!"sq{k}"
   | .schedCancel k => s!"sc{k}"
